@@ -11,16 +11,32 @@
 //! The parameters of the model (verdict of `try_new`, answer of the blockstore) come from a TWIN blockstore the
 //! harness feeds according to the specification, never from the node itself.
 //!
+//! Second family (`a2a_case`, selected alone by `--only a2a`; part of C09 as well): the same real node, its all-to-all
+//! network replaced by a recorder, is single-stepped through `handle_all2all_message` (hook
+//! `verif_handle_all2all_message`) on votes of all 5 kinds (valid, signed by another validator's / a stranger's key,
+//! unknown signer index, slot far in the future / already pruned, duplicates, slashable pairs) and certificates of all
+//! 5 kinds (valid, below the threshold, overlapping halves whose union is below the threshold, one part signed by a key
+//! that is not the marked signer's, out-of-range slot, duplicates). Observed per message, in order: pool calls
+//! (`Pool::verif_add_msg_calls`), certificate broadcasts of the node's Votor task (with the pool-call count at
+//! broadcast time). Model parameters (pool verdict, certificates newly stored) come from a TWIN `PoolImpl` the
+//! harness feeds only with what is valid BY CONSTRUCTION.
+//!
 //! ops (one output line each; `lean/Driver/NodeGlue.lean`):
 //!   shred R n slot own relay verdict ty flagged bs
 //!   shred T n slot own f verdict ty flagged bs p0 … p(n-1)
+//!   a2a k valid res [kind slot]*
 use std::collections::VecDeque;
 use std::net::{IpAddr, Ipv4Addr, SocketAddr};
 use std::sync::{Arc, Mutex};
 
 use ag_harness::*;
 use alpenglow::all2all::TrivialAll2All;
-use alpenglow::consensus::{Alpenglow, Blockstore, BlockstoreImpl, ConsensusMessage, EpochInfo, SharedBlockstore, ValidatorEpochInfo};
+use alpenglow::all2all::All2All;
+use alpenglow::consensus::{
+    AddVoteError, Alpenglow, Blockstore, BlockstoreImpl, Cert, ConsensusMessage, EpochInfo, FastFinalCert, FinalCert, FinalVote, NotarCert, NotarFallbackCert, NotarFallbackVote,
+    NotarVote, Pool, PoolEvent, PoolImpl, SharedBlockstore, SharedPool, SkipCert, SkipFallbackVote, SkipVote, ValidatedCert, ValidatedVote, ValidatorEpochInfo, Vote,
+};
+use alpenglow::crypto::merkle::BlockHash;
 use alpenglow::crypto::{aggsig, signature};
 use alpenglow::disseminator::verif_hooks::shred_position;
 use alpenglow::disseminator::{Disseminator, Rotor, Turbine};
@@ -313,13 +329,313 @@ fn glue_case<D: Disseminator + Send + Sync + 'static>(rec: &mut Recorder, rt: &t
     rec.end_case(class, true);
 }
 
+
+/// the node's all-to-all network: records every broadcast together with the pool-call count at that moment
+#[derive(Clone, Default)]
+struct RecA2A {
+    log: Arc<Mutex<Vec<(ConsensusMessage, Option<(usize, usize)>)>>>,
+    pool: Arc<Mutex<Option<SharedPool>>>,
+}
+
+impl All2All for RecA2A {
+    async fn broadcast(&self, msg: &ConsensusMessage) -> std::io::Result<()> {
+        let pool = self.pool.lock().unwrap().clone();
+        let then = pool.and_then(|p| p.try_read().ok().map(|g| g.verif_add_msg_calls()));
+        self.log.lock().unwrap().push((msg.clone(), then));
+        Ok(())
+    }
+    async fn receive(&self) -> std::io::Result<ConsensusMessage> {
+        std::future::pending().await
+    }
+}
+
+fn cert_kind(c: &Cert) -> (usize, &'static str) {
+    match c {
+        Cert::Notar(_) => (0, "notar"),
+        Cert::NotarFallback(_) => (1, "nf"),
+        Cert::Skip(_) => (2, "skip"),
+        Cert::FastFinal(_) => (3, "ff"),
+        Cert::Final(_) => (4, "final"),
+    }
+}
+
+/// a message of the a2a family: what it is BY CONSTRUCTION
+struct A2AMsg {
+    msg: ConsensusMessage,
+    what: String,
+    /// authentic and (certificates) sufficiently backed, by construction
+    admissible: bool,
+    class: &'static str,
+}
+
+fn a2a_case(rec: &mut Recorder, rt: &tokio::runtime::Runtime, rng: &mut Rng, own: usize, n: usize, shape: usize) {
+    rec.begin_case(&format!("a2a own={own} n={n} shape={shape}"));
+    let sks: Vec<signature::SecretKey> = (0..n).map(|_| signature::SecretKey::new(rng)).collect();
+    let vsks: Vec<aggsig::SecretKey> = (0..n).map(|_| aggsig::SecretKey::new(rng)).collect();
+    let stranger = aggsig::SecretKey::new(rng);
+    let stakes: Vec<u64> = (0..n).map(|i| match shape { 0 => 1, 1 => 1 + (i as u64 % 3), _ => 1 + rng.below(9) }).collect();
+    let total: u64 = stakes.iter().sum();
+    let validators: Vec<ValidatorInfo> = (0..n)
+        .map(|i| ValidatorInfo {
+            id: ValidatorIndex::new(i as u64),
+            stake: Stake::new(stakes[i]),
+            pubkey: sks[i].to_pk(),
+            voting_pubkey: vsks[i].to_pk(),
+            all2all_address: addr_of(i),
+            disseminator_address: addr_of(i),
+            repair_requester_address: addr_of(i),
+            repair_responder_address: addr_of(i),
+        })
+        .collect();
+    let epoch = EpochInfo::new(validators.clone());
+    let vei = Arc::new(ValidatorEpochInfo::new(ValidatorIndex::new(own as u64), epoch.clone()));
+    let a2a = RecA2A::default();
+    let node = {
+        let _g = rt.enter();
+        let rq: UdpNetwork<RepairRequest, RepairResponse> = UdpNetwork::new_with_any_port();
+        let rp: UdpNetwork<RepairResponse, RepairRequest> = UdpNetwork::new_with_any_port();
+        let txs: UdpNetwork<Transaction, Transaction> = UdpNetwork::new_with_any_port();
+        Alpenglow::new(sks[own].clone(), vsks[own].clone(), a2a.clone(), Rotor::new(RecNet::default(), vei.clone()), rq, rp, vei.clone(), txs)
+    };
+    let pool = node.get_pool();
+    *a2a.pool.lock().unwrap() = Some(pool.clone());
+    let (twin_tx, mut twin_rx) = tokio::sync::mpsc::channel(1 << 14);
+    let (twin_rep_tx, _twin_rep_rx) = tokio::sync::mpsc::channel(1 << 14);
+    let mut twin = PoolImpl::new(vei.clone(), twin_tx, twin_rep_tx);
+
+    let hash_of = |slot: u64, which: u64| -> BlockHash {
+        let hb: Vec<u8> = (0..32u64).map(|q| (slot * 3 + which * 101 + 7 * q) as u8).collect();
+        wincode::deserialize::<alpenglow::crypto::Hash>(&hb).expect("hash").into()
+    };
+    let stake_of = |set: &[usize]| -> u64 { let mut u: Vec<usize> = set.to_vec(); u.sort(); u.dedup(); u.iter().map(|&v| stakes[v]).sum() };
+    let far = 2 * alpenglow::types::slot::SLOTS_PER_EPOCH;
+    let nmsgs = 40 + rng.below(30) as usize;
+    let mut sent: Vec<ConsensusMessage> = Vec::new();
+    let mut hi_final_bcast = 0u64; // the oracle's own bookkeeping of the highest final(-fast) certificate broadcast so far
+    let mut class = 0u64;
+    let (mut saw_ok, mut saw_refused) = (false, false);
+    let salt = rng.below(1 << 20);
+    for step in 0..nmsgs {
+        let fin_twin = twin.finalized_slot().inner();
+        // slots: a small moving range above the finalized slot so that votes accumulate into certificates
+        // the harness stays inside the fault assumption: every slot has ONE fate (skipped, or block `hash_of(slot, 0)`);
+        // only validator 0, and only if it holds < 20 % of the stake, votes against it (second block, skip + notar, …)
+        let unpruned = twin.verif_first_unpruned_slot().inner();
+        let base = unpruned.max(1);
+        let slot = base + rng.below(6);
+        let skip_slot = |s: u64| (s.wrapping_mul(2654435761).wrapping_add(salt) >> 5) % 3 == 0;
+        let byz_ok = (stakes[0] as u128) * 5 < total as u128;
+        let which = 0u64;
+        let honest_vote_kind = |rng: &mut Rng, s: u64| if skip_slot(s) { 2 + rng.below(2) } else { [0u64, 1, 4][rng.below(3) as usize] };
+        let fit_cert_kind = |rng: &mut Rng, s: u64| if skip_slot(s) { 2usize } else { [0usize, 1, 3, 4][rng.below(4) as usize] };
+        let low_or_far = |rng: &mut Rng| if rng.chance(1, 2) || unpruned == 0 { fin_twin + far + rng.below(3) } else { rng.below(unpruned) };
+        let ix = |v: usize| ValidatorIndex::new(v as u64);
+        // signer subsets around a threshold (num/5)
+        let subset = |rng: &mut Rng, num: u64, meet: bool| -> Vec<usize> {
+            let mut order: Vec<usize> = (0..n).collect();
+            rng.shuffle(&mut order);
+            let mut set = Vec::new();
+            for v in order {
+                if (stake_of(&set) as u128) * 5 >= (total as u128) * num as u128 { break; }
+                set.push(v);
+            }
+            if !meet { set.pop(); }
+            set
+        };
+        let mk_vote = |kind: u64, slot: u64, which: u64, key: &aggsig::SecretKey, named: ValidatorIndex| -> Vote {
+            match kind {
+                0 => Vote::new_notar(Slot::new(slot), hash_of(slot, which), key, named),
+                1 => Vote::new_notar_fallback(Slot::new(slot), hash_of(slot, which), key, named),
+                2 => Vote::new_skip(Slot::new(slot), key, named),
+                3 => Vote::new_skip_fallback(Slot::new(slot), key, named),
+                _ => Vote::new_final(Slot::new(slot), key, named),
+            }
+        };
+        let vkind = ["notar", "notar-fallback", "skip", "skip-fallback", "final"];
+        // certificate of kind `ck` for `slot` from signer sets (s1: first half, s2: second half for nf / skip), one part
+        // optionally signed by the key of `forger` instead of the marked signer's
+        let mk_cert = |ck: usize, slot: u64, which: u64, s1: &[usize], s2: &[usize], forged: Option<usize>| -> Option<Cert> {
+            let key = |v: usize| -> &aggsig::SecretKey { if forged == Some(v) { &stranger } else { &vsks[v] } };
+            let nv = |s: &[usize]| -> Vec<NotarVote> { s.iter().map(|&v| NotarVote::new(Slot::new(slot), hash_of(slot, which), key(v), ix(v))).collect() };
+            if s1.is_empty() && s2.is_empty() { return None; }
+            Some(match ck {
+                0 => { if s1.is_empty() { return None; } Cert::Notar(NotarCert::new(&nv(s1), &validators)) }
+                1 => {
+                    let nf: Vec<NotarFallbackVote> = s2.iter().map(|&v| NotarFallbackVote::new(Slot::new(slot), hash_of(slot, which), key(v), ix(v))).collect();
+                    Cert::NotarFallback(NotarFallbackCert::new(&nv(s1), &nf, &validators))
+                }
+                2 => {
+                    let a: Vec<SkipVote> = s1.iter().map(|&v| SkipVote::new(Slot::new(slot), key(v), ix(v))).collect();
+                    let b: Vec<SkipFallbackVote> = s2.iter().map(|&v| SkipFallbackVote::new(Slot::new(slot), key(v), ix(v))).collect();
+                    Cert::Skip(SkipCert::new(&a, &b, &validators))
+                }
+                3 => { if s1.is_empty() { return None; } Cert::FastFinal(FastFinalCert::new(&nv(s1), &validators)) }
+                _ => {
+                    if s1.is_empty() { return None; }
+                    let f: Vec<FinalVote> = s1.iter().map(|&v| FinalVote::new(Slot::new(slot), key(v), ix(v))).collect();
+                    Cert::Final(FinalCert::new(&f, &validators))
+                }
+            })
+        };
+        let halves = |rng: &mut Rng, set: &[usize], ck: usize| -> (Vec<usize>, Vec<usize>) {
+            if ck == 1 || ck == 2 { let cut = rng.below(set.len() as u64 + 1) as usize; (set[..cut].to_vec(), set[cut..].to_vec()) } else { (set.to_vec(), Vec::new()) }
+        };
+        let m: A2AMsg = match rng.below(16) {
+            0..=4 => {
+                let v = rng.below(n as u64) as usize;
+                let (k, which) = if v == 0 && byz_ok { (rng.below(5), rng.below(2)) } else { (honest_vote_kind(rng, slot), 0) };
+                A2AMsg { msg: mk_vote(k, slot, which, &vsks[v], ix(v)).into(), what: format!("genuine {} vote of validator {v} for slot {slot}", vkind[k as usize]), admissible: true, class: "vote-valid" }
+            }
+            5 => {
+                let (k, v) = (rng.below(5), rng.below(n as u64) as usize);
+                let (key, by) = if rng.chance(1, 2) { (&stranger, "a key that is no validator's".to_string()) } else { (&vsks[(v + 1) % n], format!("validator {}'s key", (v + 1) % n)) };
+                A2AMsg { msg: mk_vote(k, slot, which, key, ix(v)).into(), what: format!("{} vote for slot {slot} naming validator {v} but signed with {by}", vkind[k as usize]), admissible: n == 1 && !by.starts_with("a key"), class: "vote-wrong-sig" }
+            }
+            6 => {
+                let k = rng.below(5);
+                let named = [n as u64, n as u64 + 1, (1u64 << 32) + rng.below(n as u64), u64::MAX][rng.below(4) as usize];
+                let v = rng.below(n as u64) as usize;
+                A2AMsg { msg: mk_vote(k, slot, which, &vsks[v], ValidatorIndex::new(named)).into(), what: format!("{} vote for slot {slot} naming signer index {named} (there are {n} validators), signed by validator {v}", vkind[k as usize]), admissible: false, class: "vote-unknown-signer" }
+            }
+            7 => {
+                let (k, v) = (rng.below(5), rng.below(n as u64) as usize);
+                let s = low_or_far(rng);
+                A2AMsg { msg: mk_vote(k, s, which, &vsks[v], ix(v)).into(), what: format!("genuine {} vote of validator {v} for the out-of-range slot {s} (finalized {fin_twin})", vkind[k as usize]), admissible: true, class: "vote-slot-out-of-range" }
+            }
+            8 if !sent.is_empty() => {
+                let j = rng.below(sent.len() as u64) as usize;
+                let msg = sent[j].clone();
+                let admissible = match &msg { ConsensusMessage::Vote(v) => ValidatedVote::try_new(v.clone(), &epoch).is_ok(), ConsensusMessage::Cert(c) => ValidatedCert::try_new(c.clone(), &epoch).is_ok() };
+                A2AMsg { msg, what: format!("a second copy of message {j} of this case"), admissible, class: "duplicate" }
+            }
+            8..=11 => {
+                let ck = fit_cert_kind(rng, slot);
+                let set = subset(rng, if ck == 3 { 4 } else { 3 }, true);
+                let (s1, s2) = halves(rng, &set, ck);
+                match mk_cert(ck, slot, which, &s1, &s2, None) {
+                    Some(c) => A2AMsg { msg: c.into(), what: format!("{} certificate for slot {slot} signed by {s1:?} + {s2:?} (stake {} of {total})", cert_kind(&mk_cert(ck, slot, which, &s1, &s2, None).unwrap()).1, stake_of(&set)), admissible: true, class: "cert-valid" },
+                    None => continue,
+                }
+            }
+            12 => {
+                let ck = rng.below(5) as usize;
+                let set = subset(rng, if ck == 3 { 4 } else { 3 }, false);
+                let (s1, s2) = halves(rng, &set, ck);
+                match mk_cert(ck, slot, which, &s1, &s2, None) {
+                    Some(c) => A2AMsg { what: format!("{} certificate for slot {slot} signed by {s1:?} + {s2:?}: stake {} of {total}, below the threshold", cert_kind(&c).1, stake_of(&set)), msg: c.into(), admissible: false, class: "cert-insufficient-stake" },
+                    None => continue,
+                }
+            }
+            13 => {
+                // both halves name the same signers: the declared stake counts them twice
+                let ck = if skip_slot(slot) { 2 } else { 1 };
+                let meet = rng.chance(1, 3);
+                let mut set = subset(rng, 3, meet);
+                if set.is_empty() { set.push(rng.below(n as u64) as usize); }
+                let union = stake_of(&set);
+                let ok = (union as u128) * 5 >= (total as u128) * 3;
+                match mk_cert(ck, slot, which, &set, &set, None) {
+                    Some(c) => A2AMsg { what: format!("{} certificate for slot {slot} whose two halves are both signed by {set:?}: distinct signers hold {union} of {total}, declared {}", cert_kind(&c).1, 2 * union), msg: c.into(), admissible: ok, class: "cert-overlapping-halves" },
+                    None => continue,
+                }
+            }
+            14 => {
+                let ck = rng.below(5) as usize;
+                let set = subset(rng, if ck == 3 { 4 } else { 3 }, true);
+                let (s1, s2) = halves(rng, &set, ck);
+                let forged = set[rng.below(set.len() as u64) as usize];
+                match mk_cert(ck, slot, which, &s1, &s2, Some(forged)) {
+                    Some(c) => A2AMsg { what: format!("{} certificate for slot {slot} marking signers {s1:?} + {s2:?}, the part of validator {forged} signed by a key that is not its own", cert_kind(&c).1), msg: c.into(), admissible: false, class: "cert-forged-signer-bit" },
+                    None => continue,
+                }
+            }
+            _ => {
+                let ck = rng.below(5) as usize;
+                let set = subset(rng, if ck == 3 { 4 } else { 3 }, true);
+                let (s1, s2) = halves(rng, &set, ck);
+                let s = low_or_far(rng);
+                match mk_cert(ck, s, which, &s1, &s2, None) {
+                    Some(c) => A2AMsg { what: format!("valid {} certificate for the out-of-range slot {s} (finalized {fin_twin})", cert_kind(&c).1), msg: c.into(), admissible: true, class: "cert-slot-out-of-range" },
+                    None => continue,
+                }
+            }
+        };
+        if std::env::var_os("AG_TRACE").is_some() { eprintln!("step {step}: {} {}", m.class, m.what); }
+        sent.push(m.msg.clone());
+        let is_cert = matches!(m.msg, ConsensusMessage::Cert(_));
+        // ---- the crate's validators on a copy (the model's `valid`); must agree with the construction
+        let (valid, vv, vc) = match &m.msg {
+            ConsensusMessage::Vote(v) => { let r = catch(|| ValidatedVote::try_new(v.clone(), &epoch)); (matches!(r, Ok(Ok(_))), r.ok().and_then(|x| x.ok()), None) }
+            ConsensusMessage::Cert(c) => { let r = catch(|| ValidatedCert::try_new(c.clone(), &epoch)); (matches!(r, Ok(Ok(_))), None, r.ok().and_then(|x| x.ok())) }
+        };
+        rec.oracle(valid == m.admissible, "node-a2a-validation-verdict", || format!("n={n} stakes {stakes:?}: {} is {}admissible by construction but try_new says {valid}", m.what, if m.admissible { "" } else { "in" }));
+        // ---- the twin pool gets it only if it is admissible by construction
+        let mut res = 2;
+        let mut created: Vec<Cert> = Vec::new();
+        if m.admissible {
+            if let Some(v) = vv { res = match rt.block_on(twin.add_vote(v)) { Ok(()) => 0, Err(AddVoteError::Slashable(_)) => 1, Err(_) => 2 }; }
+            if let Some(c) = vc { res = match rt.block_on(twin.add_cert(c)) { Ok(()) => 0, Err(_) => 2 }; }
+            while let Ok(ev) = twin_rx.try_recv() { if let PoolEvent::CertCreated(c) = ev { created.push(c); } }
+        }
+        let fin_twin1 = twin.finalized_slot().inner();
+        rec.count(&format!("a2a:{}:valid={valid}:res={res}:created={}", m.class, created.len().min(3)));
+        let op = format!("a2a {} {} {res}{}", is_cert as u8, valid as u8, created.iter().map(|c| format!(" {} {}", cert_kind(c).0, c.slot().inner())).collect::<String>());
+        // ---- the real node
+        let calls0 = rt.block_on(async { pool.read().await.verif_add_msg_calls() });
+        a2a.log.lock().unwrap().clear();
+        let r = catch(|| rt.block_on(async {
+            node.verif_handle_all2all_message(m.msg.clone()).await;
+            for _ in 0..16 { tokio::task::yield_now().await; }
+        }));
+        let calls1 = rt.block_on(async { pool.read().await.verif_add_msg_calls() });
+        let fin_node = rt.block_on(async { pool.read().await.finalized_slot().inner() });
+        let bc: Vec<(Cert, Option<(usize, usize)>)> = a2a.log.lock().unwrap().drain(..).filter_map(|(mm, t)| match mm { ConsensusMessage::Cert(c) => Some((c, t)), _ => None }).collect();
+        let mut toks: Vec<String> = Vec::new();
+        let tok = |c: &Cert| format!("bcast {}@{}", cert_kind(c).1, c.slot().inner());
+        let early = |t: &Option<(usize, usize)>| calls1 != calls0 && *t == Some(calls0);
+        for (c, t) in bc.iter().filter(|(_, t)| early(t)) { toks.push(tok(c)); let _ = t; }
+        for _ in calls0.0..calls1.0 { toks.push("add_vote".into()); }
+        for _ in calls0.1..calls1.1 { toks.push("add_cert".into()); }
+        for (c, _) in bc.iter().filter(|(_, t)| !early(t)) { toks.push(tok(c)); }
+        let line = match &r { Ok(()) => if toks.is_empty() { "none".to_string() } else { toks.join(" | ") }, Err(_) => "panic".to_string() };
+        rec.step(&op, &line);
+        class = fnv(class, &format!("{} {line}", m.class));
+        if res == 0 && valid { saw_ok = true; } else { saw_refused = true; }
+        // ---- oracle, independent of the model
+        let what = |msg: &str| format!("node {own} of {n} (stakes {stakes:?}), message {step}: {} - {msg}; observed effects `{line}`", m.what);
+        rec.oracle(r.is_ok(), "node-a2a-handler-panics", || what("handle_all2all_message panicked"));
+        let dv = calls1.0 - calls0.0;
+        let dc = calls1.1 - calls0.1;
+        if !m.admissible {
+            rec.oracle(dv + dc == 0, "node-a2a-unvalidated-reaches-pool", || what(&format!("neither authentic nor backed, yet the pool was called ({dv} add_vote, {dc} add_cert)")));
+            rec.oracle(bc.is_empty() && fin_node == fin_twin, "node-a2a-refused-message-has-effect", || what(&format!("a refused message changed the node: {} certificate broadcast(s), finalized slot {fin_twin} -> {fin_node}", bc.len())));
+        } else {
+            rec.oracle((dv, dc) == if is_cert { (0, 1) } else { (1, 0) }, "node-a2a-valid-message-not-offered", || what(&format!("an admissible message must be offered to the pool exactly once ({dv} add_vote, {dc} add_cert calls seen)")));
+        }
+        rec.oracle(fin_node == fin_twin1, "node-a2a-pool-diverges", || what(&format!("the node's pool reports finalized slot {fin_node}, a pool fed only with the admissible messages {fin_twin1}")));
+        // re-broadcast: exactly the certificates the pool newly stored, each once, identical, in order - except those of
+        // slots below the window of the highest final(-fast) certificate broadcast before (Votor::should_ignore_pool_event)
+        let mut want: Vec<Cert> = Vec::new();
+        for c in &created {
+            if c.slot().inner() < hi_final_bcast / 4 * 4 { continue; }
+            if matches!(c, Cert::Final(_) | Cert::FastFinal(_)) { hi_final_bcast = hi_final_bcast.max(c.slot().inner()); }
+            want.push(c.clone());
+        }
+        let got: Vec<Cert> = bc.iter().map(|(c, _)| c.clone()).collect();
+        rec.oracle(got == want, "node-a2a-cert-rebroadcast", || what(&format!("the node must re-broadcast exactly the certificates its pool newly stored [{}] but broadcast [{}]", want.iter().map(&tok).collect::<Vec<_>>().join(", "), got.iter().map(&tok).collect::<Vec<_>>().join(", "))));
+        rec.oracle(bc.iter().all(|(_, t)| !early(t)), "node-a2a-broadcast-before-pool", || what("a certificate was broadcast before the pool was called"));
+    }
+    rec.end_case(class, saw_ok && saw_refused);
+}
+
 fn main() {
     let args = Args::parse();
     quiet_panics();
     let mut rng = Rng::new(args.seed);
     let rt = tokio::runtime::Builder::new_current_thread().enable_all().build().expect("rt");
     let mut rec = Recorder::new();
-    let cases = if args.thorough { 64 } else { 16 };
+    let only = args.extra.iter().position(|a| a == "--only").and_then(|i| args.extra.get(i + 1).cloned());
+    let cases = if only.as_deref() == Some("a2a") { 0 } else if args.thorough { 64 } else { 16 };
     for k in 0..cases {
         let n = [4usize, 5, 7, 3][k % 4];
         let own = (k / 4 + k) % n;
@@ -332,5 +648,10 @@ fn main() {
             glue_case(&mut rec, &rt, &mut rng, own, n, 0, &|net, vei| Rotor::new(net, vei), order, own_first);
         }
     }
-    rec.finish(&args, serde_json::json!({ "cases": cases }));
+    let a2a_cases = if only.as_deref() == Some("shred") { 0 } else if args.thorough { 96 } else { 12 };
+    for k in 0..a2a_cases {
+        let n = [4usize, 5, 7, 3, 10, 2, 6, 8][k % 8]; // not 1: with a single validator the repair loop spins looking for a peer
+        a2a_case(&mut rec, &rt, &mut rng, k % n, n, k % 3);
+    }
+    rec.finish(&args, serde_json::json!({ "cases": cases, "a2a_cases": a2a_cases }));
 }
